@@ -736,6 +736,23 @@ func (e *Engine) registerInitIfaceConsts() {
 					}
 					continue
 				}
+				if call, ok := st.Val.(*ssa.Call); ok {
+					// package-level sentinel error: `var errX = errors.New("...")` / fmt.Errorf(...): some non-nil
+					// error value, the same at every use (only store is in init)
+					if callee := call.Call.StaticCallee(); callee != nil && (callee.String() == "errors.New" || callee.String() == "fmt.Errorf") &&
+						types.IsInterface(g.Type().(*types.Pointer).Elem()) && e.onlyInitStores(g.Pkg.Pkg.Path(), g.Name()) {
+						key := g.Pkg.Pkg.Path() + "." + g.Name()
+						gname := g.Name()
+						e.initConsts[key] = func(c *Ctx, s *State) (Value, bool) {
+							c.note("init-time constant " + gname + " is a non-nil sentinel error (errors.New / fmt.Errorf in its initialiser; only store is in init)")
+							typ := c.d.Const("sentinel|typ|"+key, SInt)
+							val := c.d.Const("sentinel|val|"+key, SInt)
+							s.assume(And(Neq(typ, IntLit(0)), Neq(val, IntLit(0))))
+							return If{Typ: typ, Val: val}, true
+						}
+					}
+					continue
+				}
 				mi, ok := st.Val.(*ssa.MakeInterface)
 				if !ok {
 					continue
